@@ -1,4 +1,5 @@
 import JSight.NumberDen
+import JSight.NumberTotal
 /-!
 # C10 — Numeric rules use exact decimal arithmetic on every JSON numeral
 
@@ -11,6 +12,8 @@ cross-scaling. Unbounded digits and exponents, every sign, every spelling of zer
 -/
 namespace Props.C10
 open Num
+
+def s' (x : String) : List UInt8 := x.toList.map (fun c => UInt8.ofNat c.toNat)
 
 /-- bytes → the scanner's character classes -/
 def ofBytes (bs : List UInt8) : List Ch := bs.map fun c =>
@@ -53,7 +56,48 @@ theorem C10_fracLen (bs : List UInt8) (n : N) (h : scan (ofBytes bs) = some n) (
 /-- comparison of normal forms is comparison of values -/
 theorem C10_cmp_normal_forms (a b : N) (ha : WFN a) (hb : WFN b) : a.cmp b = cmpVal a b := cmp_correct a b ha hb
 
+/-! ### every RFC 8259 numeral is in the domain of these theorems -/
+
+/-- the text of a numeral character (`e` in lower case; `ofBytes` maps 'E' to the same class) -/
+def chByte : Ch → UInt8
+  | .minus => 45 | .plus => 43 | .dot => 46 | .e => 101 | .d n => UInt8.ofNat (48 + n) | .other => 0
+
+theorem ofBytes_chByte (cs : List Ch) (h : ∀ c ∈ cs, ValidCh c ∧ c ≠ .other) : ofBytes (cs.map chByte) = cs := by
+  induction cs with
+  | nil => rfl
+  | cons c cs ih =>
+    have hc := h c (by simp)
+    have := ih (fun c' hc' => h c' (by simp [hc']))
+    simp only [ofBytes, List.map_cons, List.map_map] at this ⊢
+    rw [this]
+    congr 1
+    cases c with
+    | minus => rfl
+    | plus => rfl
+    | dot => rfl
+    | e => rfl
+    | other => exact absurd rfl hc.2
+    | d n =>
+      have hn : n < 10 := hc.1
+      have : ∀ n < 10, (fun c : UInt8 => if c == 45 then Ch.minus else if c == 43 then .plus else if c == 46 then .dot
+          else if c == 101 || c == 69 then .e else if 48 ≤ c && c ≤ 57 then .d (c.toNat - 48) else .other)
+          (chByte (.d n)) = .d n := by decide
+      exact this n hn
+
+/-- all digits of the numeral are decimal digits -/
+def digitsOK (t : Numeral) : Prop := ∀ c ∈ t.render, ValidCh c ∧ c ≠ .other
+
+/-- **totality**: the bytes of every RFC 8259 numeral — optional minus, integer part without leading zeros,
+optional fraction, optional exponent with optional sign, any number of digits anywhere — are recognised,
+except integer part `0` directly followed by an exponent (K-C10-zeroexp). So `C10_scan_spec`,
+`C10_cmp_exact` and `C10_fracLen` apply to every numeral the property quantifies over. -/
+theorem C10_total (t : Numeral) (hd : digitsOK t) (hw : t.wf) (hz : ¬ t.zeroExp) :
+    (scan (ofBytes (t.render.map chByte))).isSome = true := by
+  rw [ofBytes_chByte _ hd]
+  exact scan_total t hw hz
+
 /-! Non-vacuity / the cases the property names -/
+example : (Numeral.render ⟨true, 1, [2], some (5, [0]), some (some true, 3, [])⟩).map chByte = s' "-12.50e-3" := by decide +kernel
 def s (x : String) : List UInt8 := x.toList.map (fun c => UInt8.ofNat c.toNat)
 def nf (x : String) : Option N := scan (ofBytes (s x))
 -- equal values have equal normal forms, whatever the spelling
